@@ -184,6 +184,64 @@ class ParseLines(Contract):
         return {"s": fresh("str", "s")}
 
 
+# P-17f  the two entry points every caller goes through: None stays None, anything else is split with str.splitlines and handed to
+# the list functions above, which are used through their CONTRACTS here (modular calls)
+class FormatLinesAbs(Contract):
+    target = MOD + ":format_multiline_lines"
+    modular = True
+    returns = "str"
+    ensures = FormatLines.ensures
+
+
+class ParseLinesAbs(Contract):
+    target = MOD + ":parse_multiline_as_lines"
+    modular = True
+    returns = ("list", "str")
+    ensures = ("cont_from(s.splitlines(), 0)", "result == dec_upto(s.splitlines(), len(s.splitlines()))")
+    raises = {"MachineReadableFormatError": ("not cont_from(s.splitlines(), 0)",)}
+    raises_modifies = {"MachineReadableFormatError": ()}
+
+
+class FormatMultiline(Contract):
+    locals_order = ['s']
+    target = MOD + ":format_multiline"
+    modular = False
+    ensures = ("implies(s is None, result is None)",
+               "implies(s is not None, result == '\\n'.join(fmt_upto(s.splitlines(), len(s.splitlines()))))")
+
+    def setup(self, ex):
+        return {"s": fresh(("opt", "str"), "s")}
+
+
+class ParseMultiline(Contract):
+    locals_order = ['s']
+    target = MOD + ":parse_multiline"
+    modular = False
+    ensures = ("implies(s is None, result is None)",
+               "implies(s is not None, cont_from(s.splitlines(), 0))",
+               "implies(s is not None, result == '\\n'.join(dec_upto(s.splitlines(), len(s.splitlines()))))")
+    raises = {"MachineReadableFormatError": ("s is not None", "not cont_from(s.splitlines(), 0)")}
+
+    def setup(self, ex):
+        return {"s": fresh(("opt", "str"), "s")}
+
+
+def verify_entry_points(ctx):
+    sl = SpecLib()
+    w = World(sl)
+    w.spec_env["empty_lines"] = VFunc("builtin", "empty_lines",
+                                      fn=lambda ex, a, kw: VSeq("list", "str", z3.Empty(z3.SeqSort(z3.SeqSort(z3.IntSort())))))
+    for f in (fmt_line, dec_line):
+        w.spec_func(f)
+    w.spec_func(fmt_upto, rec=dict(args=[("list", "str"), "int"], ret=("list", "str")))
+    w.spec_func(dec_upto, rec=dict(args=[("list", "str"), "int"], ret=("list", "str")))
+    w.spec_func(cont_from, rec=dict(args=[("list", "str"), "int"], ret="bool"))
+    w.add_contract(FormatLinesAbs())
+    w.add_contract(ParseLinesAbs())
+    verify_contracts(ctx, w, [FormatMultiline(), ParseMultiline()], {})
+    ctx.solve()
+
+
 def verify_parse_lines(ctx):
     sl = SpecLib()
     w = World(sl)
@@ -237,7 +295,7 @@ def run(ctx):
     _c02.verify_split_gpg(ctx, extract.load("debian.deb822").real())
     _c02.verify_internal_parser(ctx, extract.load("debian.deb822").real())
     _c08.run_dump_format(ctx)
-    for q in ("format_multiline_lines", "parse_multiline_as_lines", "License.from_str", "License.to_str", "_SpaceSeparated.from_str",
+    for q in ("format_multiline", "parse_multiline", "format_multiline_lines", "parse_multiline_as_lines", "License.from_str", "License.to_str", "_SpaceSeparated.from_str",
               "_SpaceSeparated.to_str", "_LineBased.from_str", "_LineBased.to_str", "Copyright.__init__", "Copyright.dump"):
         node, _ = mod.lookup(q)
         if node is not None:
@@ -245,6 +303,7 @@ def run(ctx):
     run_deductive(ctx)
     verify_space_separated(ctx, extract.load(MOD).real())
     verify_parse_lines(ctx)
+    verify_entry_points(ctx)
     rng = random.Random(ctx.seed)
     N = 3 if ctx.tier == "quick" else 4
     t = Tally(ctx, "B-17 multiline codec on all short line lists; documents dump -> strict parse -> dump",
@@ -381,7 +440,7 @@ def run(ctx):
                        "PGP armor line or a paragraph separator by the patterns of split_gpg_and_payload (SMT on the real patterns); split_gpg_and_payload, from its real AST, returns exactly the lines (CR / LF stripped) as payload - nothing taken for armor, nothing cut off - for every sequence of lines none of which matches the armor pattern or the separator pattern in force (loop invariant over the line index; both parser settings). ALSO PROVED from the ASTs: _SpaceSeparated.to_str and _LineBased.to_str against recursive specifications (every value stripped, in order, joined by exactly one blank resp. each on a line of its own after an empty first line; None for an empty list; MachineReadableFormatError exactly when a value is empty or contains whitespace resp. a newline). ALSO PROVED from the AST: parse_multiline_as_lines against a recursive per-line decoding of s.splitlines() (first line kept, "
                        "later lines without their leading blank, a lone '.' after it standing for an empty line; list edited in place while "
                        "enumerated; MachineReadableFormatError exactly when a later line does not start with a blank) - str.splitlines "
-                       "itself is an uninterpreted function. NOT proved: the join/splitlines law, License / paragraph classes - BOUNDED part (see module docstring).")
+                       "itself is an uninterpreted function; the entry points format_multiline / parse_multiline (None stays None, otherwise splitlines + the list function, used through its contract - a modular call - and joined with newlines). NOT proved: the join/splitlines law, License / paragraph classes - BOUNDED part (see module docstring).")
     ctx.assumptions += ["the single empty line list [''] is outside the domain of the codec clause (it encodes to '' which decodes to [])",
                         "lines contain no line-boundary characters"]
 
